@@ -485,12 +485,13 @@ pub fn strftime(ts: time::OffsetDateTime, fmt: &str) -> Result<String, DateForma
                             width = pad_width,
                         );
                     } else {
-                        w!(
-                            output,
-                            "{: >+width$}",
-                            offset.whole_hours(),
-                            width = pad_width
+                        // the sign belongs to the whole offset: -00:30 has zero whole hours
+                        let hours = format!(
+                            "{}{}",
+                            if offset.is_negative() { '-' } else { '+' },
+                            offset.whole_hours().abs()
                         );
+                        w!(output, "{: >width$}", hours, width = pad_width);
                     }
 
                     w!(
